@@ -156,7 +156,7 @@ def run_shard(ctx):
     from mindsdb_sql.planner import plan_query
     from mindsdb_sql.exceptions import PlanningException
     acc = ctx.acc
-    n = 1500 if ctx.tier == 'quick' else 20000
+    n = 1500 if ctx.tier == 'quick' else 60000
     nstates = 3 if ctx.tier == 'quick' else 6
     cases = []
     for i in range(n):
